@@ -111,7 +111,8 @@ func (w *World) verifyFunction(fn *ssa.Function, ct *Contract, props []string) (
 	exitState := ex.mergeReturns()
 	res := fn.Signature.Results()
 	post := ex.contractEnv(exitState, ex.entry)
-	post.locals = false
+	// parameters denote their entry values (they are in post.vars); other locals denote their values at exit
+	post.locals = true
 	for k, v := range ex.params {
 		post.vars[k] = v
 	}
